@@ -18,8 +18,14 @@ CHECKS = {}
 
 
 def load():
+    import importlib
     import manifest_data
-    return manifest_data.CHECKS, manifest_data.NOT_APPLICABLE, manifest_data.HOOK_COMMITS
+    checks = dict(manifest_data.CHECKS)
+    for f in sorted((Path(__file__).resolve().parent / "checks").glob("c[0-9][0-9].py")):
+        mod = importlib.import_module("checks." + f.stem)
+        if hasattr(mod, "MANIFEST"):
+            checks[mod.PID] = mod.MANIFEST
+    return checks, manifest_data.NOT_APPLICABLE, manifest_data.HOOK_COMMITS
 
 
 def main():
